@@ -21,7 +21,7 @@ import zlib
 
 from mc import core
 from mc.core import Stats
-from mc import c02_env, c02_ref, c02_spell
+from mc import c02_env, c02_ref, c02_sig, c02_spell
 
 PROPERTY = "C02"
 LEVEL = "model_checking"
@@ -348,36 +348,7 @@ def observe(text, kw, ctx):
         return ("exc", type(e).__name__, str(e)[:300], "render")
 
 
-PEP701_SIG = "spell:f-string replacement field reuses the quote of its f-string (PEP 701) around | or }"
-
-
-def _cls(x):
-    if x is None:
-        return "unset"
-    if not x:
-        return "empty"
-    return "n-list" if any(c02_ref.is_n(f) for f in x) else "list"
-
-
-def signature(prog, exp, obs, tags=None):
-    """footprint: family + the feature classes of the failing case + how it fails"""
-    how = "diff" if obs[0] == "ok" and exp[0] == "ok" else ("no-error" if obs[0] == "ok" else "exc:" + obs[1])
-    fam = prog.get("fam", "pipe")
-    if fam in ("spell",):
-        if "pep701" in (tags or []):
-            return PEP701_SIG
-        feat = "+".join(sorted(set(tags or []))) or "plain"
-        return "spell:%s:%s" % (how, feat)
-    _, nd = _stages_of(prog)
-    L = nd[2] if nd else []
-    s = "%s:%s:%s:L=%s/D=%s/P=%s" % (fam, prog.get("pos"), how, _cls(L) if L else "none", _cls(prog.get("D")), _cls(prog.get("P")))
-    if prog.get("B"):
-        s += "/B"
-    if prog.get("bind", "ctx") != "ctx":
-        s += "/bind=" + prog["bind"]
-    if prog.get("pbind", "imports") != "imports":
-        s += "/pbind=" + prog["pbind"]
-    return s
+signature = c02_sig.signature
 
 
 def check_prog(prog, vnames, st, tags=None, fam=None, lex=False, nt=None):
@@ -425,7 +396,7 @@ def check_prog(prog, vnames, st, tags=None, fam=None, lex=False, nt=None):
                 bad = "documented composition raises %s but the template renders" % exp[1]
         if bad:
             case = {"prog": prog, "ctx": ctxj, "tags": tags or []}
-            st.violation(signature(prog, exp, obs, tags), case, "render: " + bad, expected=list(exp[:2]), observed=list(obs))
+            st.violation(signature(prog, exp, obs, tags, text), case, "render: " + bad, expected=list(exp[:2]), observed=list(obs))
         if st.evaluations % 4999 == 1:
             st.sample({"template": text, "template_kwargs": kw, "ctx": ctxj, "expected": list(exp[:2]), "observed": list(obs[:2])})
     if lex:
@@ -477,9 +448,9 @@ def check_lex(prog, text, st, tags):
             w2.append(w)
     if got != w2:
         how = "exc:" + got[1] if nodes is None else "split"
-        sig = "node:%s:%s" % (how, "+".join(sorted(set(tags or []))) or "plain")
-        if "pep701" in (tags or []):
-            sig = PEP701_SIG
+        sig = signature(prog, ("ok",), ("exc", got[1]) if nodes is None else ("ok",), tags, text)
+        if not sig.startswith(("spell:cut", "spell:scanner", "spell:ran")):
+            sig = "node:%s:%s" % (how, (tags or ["?"])[0])
         st.violation(sig, {"prog": prog, "ctx": None, "tags": tags or [], "lex": True}, "lexer: Expression node does not hold the expression text / filter part", expected=[list(w) for w in w2], observed=[list(g) for g in got] if nodes is not None else list(got))
 
 
